@@ -880,6 +880,32 @@ pub fn dec_poll_styled<F: Family>(
     }
 }
 
+/// The poll decoder started from a body state the *caller* built: it has read the fixed header itself
+/// (`Header::decode`), holds the first `prefill` body bytes already, and hands the decoder
+/// `GenericPollPacketState::Body { header, total, idx: prefill, buf: <remaining_len bytes> }` together with a reader that
+/// stands behind what it holds. None when the string has no parsable header, no body, or a body above 4 MiB.
+/// Returns the decoder's result and the reader position relative to the start of `data`.
+pub fn dec_poll_from_built_body<F: Family>(data: &[u8], prefill: usize) -> Option<(Result<PollOk<F::Packet>, F::Error>, usize)> {
+    let (hl, rl) = crate::refdec::frame_bounds(data).ok()?;
+    if rl == 0 || rl > (4 << 20) {
+        return None;
+    }
+    let header = F::header_decode(data).ok()?;
+    // (at least one body byte is left for the decoder to read: a state whose body is already complete is not one the
+    // machine itself ever hands back, and nothing is claimed about it)
+    let pre = prefill.min(rl - 1).min(data.len() - hl);
+    let mut buf: Vec<MaybeUninit<u8>> = Vec::with_capacity(rl);
+    // (uninitialised on purpose, like the buffer the decoder makes for itself)
+    unsafe { buf.set_len(rl) };
+    for (d, s) in buf.iter_mut().zip(&data[hl..hl + pre]) {
+        *d = MaybeUninit::new(*s);
+    }
+    let mut state: GenericPollPacketState<F::Header> = GenericPollPacketState::Body(mqtt_proto::GenericPollBodyState { header, total: hl + rl, idx: pre, buf });
+    let mut rd = ScriptedReader::new(&data[hl + pre..], &[]);
+    let (res, _) = sio::drive(GenericPollPacket::new(&mut state, &mut rd), 16);
+    Some((res.map(|(total, buf, pkt)| PollOk { total, body: body_bytes(buf), pkt }), hl + pre + rd.pos))
+}
+
 /// one-shot poll decode of a byte string (everything ready in one read)
 pub fn dec_poll<F: Family>(data: &[u8]) -> PollRun<F> {
     dec_poll_scripted::<F>(data, &[], 0, None, false)
